@@ -447,7 +447,11 @@ func compileTypeAssertExpr(ctx *blockCtx, v *ast.TypeAssertExpr, twoValue bool) 
 }
 
 func compileIndexExpr(ctx *blockCtx, v *ast.IndexExpr, inFlags ...int) { // x[i]
-	compileExpr(ctx, v.X, inFlags...)
+	if twoValue(inFlags) { // `v, ok := x[i][j]`: only the outermost index yields two values
+		compileExpr(ctx, v.X, inFlags[0]&^clCallWithTwoValue)
+	} else {
+		compileExpr(ctx, v.X, inFlags...)
+	}
 	compileExpr(ctx, v.Index)
 	ctx.cb.Index(1, twoValue(inFlags), v)
 }
